@@ -838,7 +838,6 @@ func checkKeyScheme(c *core.Ctx, rule string) {
 // (allocated before the loop, kept when "large enough", taken from the receiver) is overwritten by the next key while
 // the consumer may still hold the previous response.
 func checkFreshValueBuffers(c *core.Ctx, rule string, rels ...string) {
-	pv := &ssax.Prov{}
 	for _, rel := range rels {
 		for _, fn := range pkgFuncs(c, rel) {
 			loops := ssax.Loops(fn)
@@ -853,62 +852,15 @@ func checkFreshValueBuffers(c *core.Ctx, rule string, rels ...string) {
 					return
 				}
 				key := ordinalKey(counts, core.FuncName(fn)+"#value-buffer")
+				vals := fieldStoreVals(snd.X, "Data")
 				var bad []string
 				n := 0
-				leaf := func(v ssa.Value, path ...string) {
-					for _, s := range pv.Sources(v, path...) {
-						n++
-						switch s.Kind {
-						case "const", "zero", "recv":
-							continue // a received value is the producer's responsibility
-						}
-						vi, isIns := s.V.(ssa.Instruction)
-						if !isIns || vi.Block() == nil || vi.Parent() != fn || !loop.Blocks[vi.Block()] {
-							bad = append(bad, s.String()+" ("+c.P.Pos(s.V.Pos())+")")
-						}
-					}
-				}
-				seen := map[ssa.Value]bool{}
-				var walk func(v ssa.Value)
-				walk = func(v ssa.Value) {
-					if seen[v] {
-						return
-					}
-					seen[v] = true
-					switch x := v.(type) {
-					case *ssa.Phi:
-						if x.Block() == loop.Header {
-							allNil := true
-							for _, e := range x.Edges {
-								if !ssax.IsNilConst(e) && e != ssa.Value(x) {
-									allNil = false
-								}
-							}
-							if !allNil {
-								n++
-								bad = append(bad, "a buffer carried from one iteration to the next ("+x.Comment+", "+c.P.Pos(x.Pos())+")")
-							}
-							return
-						}
-						for _, e := range x.Edges {
-							walk(e)
-						}
-					case *ssa.Slice:
-						walk(x.X)
-					case *ssa.Convert:
-						walk(x.X)
-					case *ssa.ChangeType:
-						walk(x.X)
-					default:
-						leaf(v)
-					}
-				}
-				vals := fieldStoreVals(snd.X, "Data")
 				if len(vals) == 0 {
-					leaf(snd.X, "Data")
+					bad, n = loopFresh(c, fn, loop, snd.X, "Data")
 				}
 				for _, v := range vals {
-					walk(v)
+					b, k := loopFresh(c, fn, loop, v)
+					bad, n = append(bad, b...), n+k
 				}
 				if n == 0 {
 					return
@@ -995,4 +947,71 @@ func checkRestoreKeepsFlags(c *core.Ctx, rule string) {
 			}
 		})
 	}
+}
+
+// loopFresh: is v (or its field path) a value obtained inside the current iteration of loop? Returns the origins that
+// are not (allocated before the loop, carried from one iteration to the next, parameters, globals) and the number of
+// origins examined. Constants, nil and received values count as fresh.
+func loopFresh(c *core.Ctx, fn *ssa.Function, loop *ssax.Loop, v ssa.Value, path ...string) (bad []string, n int) {
+	pv := &ssax.Prov{}
+	leaf := func(v ssa.Value, path ...string) {
+		for _, s := range pv.Sources(v, path...) {
+			n++
+			switch s.Kind {
+			case "const", "zero", "recv":
+				continue // a received value is the producer's responsibility
+			}
+			vi, isIns := s.V.(ssa.Instruction)
+			if !isIns || vi.Block() == nil || vi.Parent() != fn || !loop.Blocks[vi.Block()] {
+				bad = append(bad, s.String()+" ("+c.P.Pos(s.V.Pos())+")")
+			}
+		}
+	}
+	if len(path) > 0 {
+		leaf(v, path...)
+		return
+	}
+	seen := map[ssa.Value]bool{}
+	var walk func(v ssa.Value)
+	walk = func(v ssa.Value) {
+		if seen[v] {
+			return
+		}
+		seen[v] = true
+		switch x := v.(type) {
+		case *ssa.Phi:
+			if x.Block() == loop.Header {
+				allNil := true
+				for _, e := range x.Edges {
+					if !ssax.IsNilConst(e) && e != ssa.Value(x) {
+						allNil = false
+					}
+				}
+				if !allNil {
+					n++
+					bad = append(bad, "a value carried from one iteration to the next ("+x.Comment+", "+c.P.Pos(x.Pos())+")")
+				}
+				return
+			}
+			for _, e := range x.Edges {
+				walk(e)
+			}
+		case *ssa.Slice:
+			walk(x.X)
+		case *ssa.Convert:
+			walk(x.X)
+		case *ssa.ChangeType:
+			walk(x.X)
+		case *ssa.MakeChan, *ssa.MakeSlice, *ssa.MakeMap, *ssa.Alloc, *ssa.Call:
+			n++
+			vi := x.(ssa.Instruction)
+			if !loop.Blocks[vi.Block()] {
+				bad = append(bad, "created before the loop ("+c.P.Pos(x.Pos())+")")
+			}
+		default:
+			leaf(v)
+		}
+	}
+	walk(v)
+	return
 }
